@@ -381,9 +381,42 @@ func fill(tmpl string, over map[string]string, aux string) string {
 	return strings.ReplaceAll(s, "@@AUX@@", aux)
 }
 
+// reqLists enumerates request lists over a small item grammar: every sequence of length ≤ 2
+// (and, in the thorough tier, 3; a seeded sample of them in the quick tier) of plain names,
+// multiplicities incl. 0 and negative ones, per-request sleeps, sleep() items and unknown names.
+func reqLists(rng *rand.Rand, quick bool) []string {
+	items := []string{"r1", "r2", "r1(0)", "r1(-1)", "r1(2)", "r1(0, 5)", "r1(-1, 50)", "r1(1, -5)", "r2(2, 0)", "sleep(5)", "sleep(0)", "sleep(-5)", "sleep()", "nope"}
+	var out []string
+	q := func(xs ...string) string {
+		for i := range xs {
+			xs[i] = `"` + xs[i] + `"`
+		}
+		return "[" + strings.Join(xs, ", ") + "]"
+	}
+	for _, a := range items {
+		out = append(out, q(a))
+		for _, b := range items {
+			out = append(out, q(a, b))
+			for _, c := range items {
+				if !quick || rng.Intn(14) == 0 {
+					out = append(out, q(a, b, c))
+				}
+			}
+		}
+	}
+	return out
+}
+
 func scenarioCases(rng *rand.Rand, quick bool) []Case {
 	var out []Case
 	csvs := map[string]string{"rows": "1,alice\n2,bob\n", "empty": "", "one": "7,x\n"}
+	for _, rl := range reqLists(rng, quick) {
+		out = append(out, Case{Kind: "scenario", Format: "http/scenario", Ext: "yaml", Mut: "REQS=" + rl + " csv=rows",
+			Text: []byte(fill(httpScenarioYAML, map[string]string{"REQS": rl}, "@@AUXPATH@@")), Aux: csvs["rows"]})
+		gl := strings.ReplaceAll(strings.ReplaceAll(rl, "r1", "c1"), "r2", "c1")
+		out = append(out, Case{Kind: "scenario", Format: "grpc/scenario", Ext: "yaml", Mut: "REQS=" + gl + " csv=rows",
+			Text: []byte(fill(grpcScenarioYAML, map[string]string{"REQS": gl}, "@@AUXPATH@@")), Aux: csvs["rows"]})
+	}
 	for slot, muts := range slotMutations {
 		for _, m := range muts {
 			for csvName, csv := range csvs {
